@@ -14,8 +14,11 @@ from ..core import Suite
 from ..propkit import OracleOnly, with_oracle
 
 PROPERTY = "C12"
-LEAN_MODULES = ["DAVerif.Props.C12"]
+LEAN_MODULES = ["DAVerif.Props.C12", "DAVerif.Props.C12sem"]
 THEOREMS = ["DAVerif.C12." + t for t in (
+    # without the guard (Props/C12sem.lean): evaluating the printed text always succeeds and gives the same rows
+    "C12_rebuild_is_replaceLeaves", "C12_rebuild_total", "C12_rebuild_reachable", "C12_rebuild_struct", "C12_rebuild_sem_all",
+    "C12_rebuild_sem_all_rows", "C12_rebuild_column_order_not_preserved", "C12_rebuild_sem_scope_necessary",
     "C12_reachable_nf",
     "C12_pipeline_rebuild_exact_partial",
     "C12_pipeline_rebuild_partial",
@@ -52,7 +55,10 @@ NOT_PROVEN = [
     "black re-formatting (`to_python(pretty=True)`, `repr`, `str`): oracle only",
     "`pickle.dumps` / `pickle.loads`: oracle only",
     "finding C12-extend-remerge (N26): for pipelines outside the guard `noRemerge` the rebuilt pipeline is a differently "
-    "merged, non-== pipeline; that it still evaluates identically is sampled by the oracle, not proven",
+    "merged, non-== pipeline (possibly with another declared column order); that it still evaluates to the same rows IS proved "
+    "(C12_rebuild_sem_all under C18's scope with the record-transform laws C06 uses; C12_rebuild_sem_all_rows without any scope "
+    "under the additional law ConvertColInvariant: a record transform answers a column permutation of its input with a column "
+    "permutation of its output - assumed of Θ, instantiated for the example interpretation only)",
     "SQLNode and non-default TableDescription arguments (qualifiers, sql_meta) are not generated",
 ]
 LEVEL_TEXT = ("Kernel-checked for every pipeline reachable through the builders (any number of steps, joins/concats of "
